@@ -1186,6 +1186,97 @@ class DocGen:
         return None
 
 
+    # ---- variants that must NOT change Equals (absent / null / empty collection; same instant)
+    def empty_variant(self, doc, defname=None):
+        """doc with optional empty collections dropped / absent optional collections given as empty /
+        optional nulls dropped; still valid.  Returns None when nothing could be changed."""
+        r = self.rng
+        root_t = self.defs[defname or self.schema["root"]]
+        out = doc
+        changed = False
+        for path, st, v in self._struct_positions(root_t, doc):
+            for f in st["fields"]:
+                if f["req"]:
+                    continue
+                rt = self.resolve(f["t"])
+                cur = self.get(out, path)
+                if rt["k"] in ("array", "map"):
+                    empty = [] if rt["k"] == "array" else {}
+                    if f["name"] in cur and cur[f["name"]] in ([], {}, None) and r.random() < 0.7:
+                        out = self.put(out, path + (f["name"],), _DELETE)
+                        changed = True
+                    elif f["name"] not in cur and r.random() < 0.5:
+                        out = self.put(out, path + (f["name"],), empty)
+                        changed = True
+                elif f["name"] in cur and cur[f["name"]] is None and r.random() < 0.7:
+                    out = self.put(out, path + (f["name"],), _DELETE)
+                    changed = True
+        return out if changed else None
+
+    def zeroish(self, t):
+        """a valid document for t that decodes to the Go zero value of t's type, or _DELETE if none"""
+        rt = self.resolve(t)
+        k = rt["k"]
+        if k == "string" and rt.get("minlen", 0) == 0:
+            return ""
+        if k == "int" and self._int_ok(rt, 0):
+            return 0
+        if k == "float" and self._float_ok(rt, Decimal(0)):
+            return 0
+        if k == "bool":
+            return False
+        if k == "array":
+            return []
+        if k == "map":
+            return {}
+        if k == "struct" and not any(f["req"] for f in rt["fields"]):
+            return {}
+        return _DELETE
+
+    @staticmethod
+    def _int_ok(t, v):
+        return not (("ge" in t and v < t["ge"]) or ("gt" in t and v <= t["gt"]) or
+                    ("le" in t and v > t["le"]) or ("lt" in t and v >= t["lt"]))
+
+    _float_ok = _int_ok
+
+    def map_key_variant(self, doc, defname=None):
+        """doc with, in one map, a key renamed and its value replaced by the zero value of the value
+        type: the pair the generated map comparison (len + lookups of self's keys) is blind to"""
+        root_t = self.defs[defname or self.schema["root"]]
+        cands = []
+        for path, t, v, _ in self.positions(root_t, doc):
+            rt = self.resolve(t)
+            if rt["k"] == "map" and isinstance(v, dict) and v:
+                z = self.zeroish(rt["of"])
+                if z is not _DELETE:
+                    cands.append((path, v, z))
+        if not cands:
+            return None
+        path, v, z = self.rng.choice(cands)
+        k0 = self.rng.choice(list(v))
+        nv = {}
+        for k, x in v.items():
+            if k == k0:
+                nv[k + "_r"] = z
+            else:
+                nv[k] = x
+        return self.put(doc, path, nv)
+
+    def time_variant(self, doc, defname=None):
+        """doc with one UTC timestamp written with the other zone designator (Z <-> +00:00)"""
+        root_t = self.defs[defname or self.schema["root"]]
+        cands = []
+        for path, t, v, _ in self.positions(root_t, doc):
+            if self.resolve(t)["k"] == "datetime" and isinstance(v, str) and (v.endswith("Z") or v.endswith("+00:00")):
+                cands.append((path, v))
+        if not cands:
+            return None
+        path, v = self.rng.choice(cands)
+        nv = v[:-1] + "+00:00" if v.endswith("Z") else v[:-6] + "Z"
+        return self.put(doc, path, nv)
+
+
 class _Delete:
     pass
 
@@ -1233,8 +1324,10 @@ def stress_doc(rng, doc, p=0.25):
                 if c < 0.35 and k:
                     nk = rng.choice([k.upper(), k[0].upper() + k[1:], k.lower(), k.swapcase()])
                     items[i] = (nk, v)
-                elif c < 0.7 and not isinstance(v, (dict, list, DupObj)):
-                    other = rng.choice([v, None, 0, "dup", True])
+                elif c < 0.7 and not isinstance(v, (dict, list, DupObj)) and v is not None:
+                    # the duplicate has the same JSON type: Go decodes a later duplicate INTO the earlier
+                    # value (visible for disjunction structs), the model replaces it
+                    other = ("dup" if isinstance(v, str) else (not v) if isinstance(v, bool) else 7)
                     pair = [(k, other), (k, v)] if rng.random() < 0.5 else [(k, v), (k, other)]
                     if rng.random() < 0.3 and k:
                         pair[0] = (k.upper(), pair[0][1])
